@@ -413,7 +413,7 @@ fn arc_random_content(rng: &mut Rng, max_files: usize) -> (String, Value) {
     let end = pos;
     // planted defect
     let kind = if rng.chance(1, 5) {
-        *rng.pick(if n == 0 { &["nocount", "noinfo"][..] } else { &["nocount", "noinfo", "noname", "end", "start"][..] })
+        *rng.pick(if n == 0 { &["nocount", "noinfo"][..] } else { &["nocount", "noinfo", "noname", "end", "start", "words", "words", "wrapsum"][..] })
     } else {
         "ok"
     };
@@ -433,19 +433,48 @@ fn arc_random_content(rng: &mut Rng, max_files: usize) -> (String, Value) {
                     data.push(0);
                 }
                 for (j, f) in recs.iter().enumerate() {
-                    let mut size = bodies[*f].len();
-                    let mut off = body_addr[*f] - base;
+                    // field values as u64 so that the whole u32 range can be planted
+                    let mut size = bodies[*f].len() as u64;
+                    let mut off = (body_addr[*f] - base) as u64;
                     if j == victim && kind == "end" {
-                        size = end - body_addr[*f] + 1 + rng.below(40);
+                        size = (end - body_addr[*f] + 1 + rng.below(40)) as u64;
                     }
                     if j == victim && kind == "start" {
-                        off = end - base + 1 + rng.below(40);
+                        off = (end - base + 1 + rng.below(40)) as u64;
                         size = size.max(1);
+                    }
+                    if j == victim && kind == "words" {
+                        // out-of-range offset and/or size anywhere in the 32-bit range
+                        let far = |rng: &mut Rng| -> u64 {
+                            match rng.below(6) {
+                                0 => (end + 1 + rng.below(100_000)) as u64,              // past the end
+                                1 => 0x7FFF_FF00 + rng.below(0x200) as u64,              // around 2^31
+                                2 => 0xFFFF_FFA0 + rng.below(0x60) as u64,               // + 0x60 wraps modulo 2^32
+                                3 => 0xFFFF_FF00 + rng.below(0xA0) as u64,               // just below those
+                                4 => 0x1_0000_0000 - 1 - rng.below(0x1_0000) as u64,     // top of the range
+                                _ => rng.next() % 0xFFFF_0000 + 0x1_0000,                // anywhere far out
+                            }
+                        };
+                        size = size.max(1);
+                        match rng.below(3) {
+                            0 => off = far(rng),
+                            1 => size = far(rng),
+                            _ => {
+                                // offset far out, size chosen so that offset (+ header) + size is small modulo 2^32
+                                off = far(rng).max(0x8000_0000);
+                                size = (0x1_0000_0000u64 - off) + rng.below(8) as u64 + if padded && rng.chance(1, 2) { 0 } else { 0x60 };
+                                size = size.clamp(1, 0xFFFF_FFFF);
+                            }
+                        }
+                    }
+                    if j == victim && kind == "wrapsum" {
+                        // start inside the region, start + size = small value modulo 2^32
+                        size = 0x1_0000_0000u64 - (body_addr[*f].max(1) as u64) + rng.below(4) as u64;
                     }
                     data.extend([0u8; 4]);
                     data.extend(le32(if rng.chance(1, 2) { *f } else { j }));
-                    data.extend(le32(size));
-                    data.extend(le32(off));
+                    data.extend((size as u32).to_le_bytes());
+                    data.extend((off as u32).to_le_bytes());
                 }
             }
             It::Body(i) => data.extend(&bodies[*i]),
@@ -489,7 +518,7 @@ fn arc_random_content(rng: &mut Rng, max_files: usize) -> (String, Value) {
 }
 
 fn arc_record(out_path: &str, runs: usize, max_files: usize) {
-    let mut rng = Rng::new(seed_from_env());
+    let mut rng = Rng::new(seed_from_env() ^ if cfg!(debug_assertions) { 0x5EED } else { 0 });
     let mut out = NdWriter::create(out_path);
     // the repository's own sample: content as parsed by BinArchive, result of arc::from_bytes on the file
     if let Ok(file) = std::fs::read(format!("{}/resources/test/ArcTest.arc", mila_dir())) {
